@@ -51,6 +51,7 @@ type ISnap struct {
 	SLeader  string `json:"slid"`
 	SRev     uint64 `json:"srev"`
 	Blocked  bool   `json:"blocked,omitempty"` // Status() did not return
+	Fine     bool   `json:"fine,omitempty"`    // taken inside a fine-mode window (a goroutine may be parked inside a critical section)
 	Gauge    int    `json:"g"`                 // last value of the is-leader gauge (-1 = never set)
 	NProm    int    `json:"np"`
 	NDem     int    `json:"nd"`
@@ -134,11 +135,11 @@ type recMetrics struct{ in *Inst }
 
 func (m *recMetrics) SetIsLeader(v float64, _ prometheus.Labels) {
 	in, w := m.in, m.in.w
-	w.mu.Lock()
+	w.lock()
 	in.gauge = int(v)
 	ls, lt := w.leadersNow()
 	w.ev(Ev{K: "gauge", I: in.spec.ID, B: v == 1, S2: w.curEvent, Leaders: ls, LTok: lt, Rec: parseRec(w.store.Live(in.group(), w.now()))})
-	w.mu.Unlock()
+	w.unlock()
 }
 func (m *recMetrics) SetConnectionStatus(v float64, _ prometheus.Labels) {
 	m.in.w.evL(Ev{K: "connstatus", I: m.in.spec.ID, N: int(v)})
@@ -242,29 +243,29 @@ func (in *Inst) create() error {
 	w := in.w
 	id := in.spec.ID
 	el.OnPromote(func(ctx context.Context, token string) {
-		w.mu.Lock()
+		w.lock()
 		in.nProm++
 		t := &Term{Inst: id, Token: token, TStart: w.now(), ctx: ctx}
 		in.terms = append(in.terms, t)
 		ls, lt := w.leadersNow()
 		w.ev(Ev{K: "promote", I: id, S: token, B: el.IsLeader(), N: len(in.terms), Leaders: ls, LTok: lt, Rec: parseRec(w.store.Live(in.group(), w.now()))})
-		w.mu.Unlock()
+		w.unlock()
 		w.signal()
 		if in.spec.NoPromoteBlock {
 			return
 		}
 		<-ctx.Done()
-		w.mu.Lock()
+		w.lock()
 		t.CtxDone, t.TCtxDone = true, w.now()
 		w.ev(Ev{K: "promote.ctxdone", I: id, S: token, N: len(in.terms)})
-		w.mu.Unlock()
+		w.unlock()
 	})
 	el.OnDemote(func() {
-		w.mu.Lock()
+		w.lock()
 		in.nDem++
 		ls, lt := w.leadersNow()
 		w.ev(Ev{K: "demote", I: id, B: el.IsLeader(), Leaders: ls, LTok: lt, Rec: parseRec(w.store.Live(in.group(), w.now()))})
-		w.mu.Unlock()
+		w.unlock()
 		w.signal()
 		if in.spec.DemoteDur > 0 {
 			time.Sleep(in.spec.DemoteDur)
@@ -358,10 +359,10 @@ func (w *World) runItem(idx int) {
 	w.ev(Ev{K: "api.call", I: it.Inst, S: name, B: in != nil && in.created && in.el.IsLeader()})
 	go func() {
 		res := w.callAPI(in, it)
-		w.mu.Lock()
+		w.lock()
 		a.busy = false
 		w.ev(Ev{K: "api.ret", I: it.Inst, S: name, S2: res, Rec: parseRec(w.store.Live(in.group(), w.now()))})
-		w.mu.Unlock()
+		w.unlock()
 		w.signal()
 	}()
 }
@@ -414,7 +415,7 @@ func (w *World) callAPI(in *Inst, it *Item) string {
 			}
 		}
 		err := in.el.Start(w.rootCtx)
-		w.mu.Lock()
+		w.lock()
 		if err == nil {
 			in.started = true
 			in.stopDone = false
@@ -423,33 +424,33 @@ func (w *World) callAPI(in *Inst, it *Item) string {
 				go w.dispatcher(in)
 			}
 		}
-		w.mu.Unlock()
+		w.unlock()
 		return errStr(err)
 	case "stop":
-		w.mu.Lock()
+		w.lock()
 		in.inStopCall++
-		w.mu.Unlock()
+		w.unlock()
 		err := in.el.Stop()
-		w.mu.Lock()
+		w.lock()
 		in.inStopCall--
 		if err == nil {
 			in.stopDone = true
 		}
-		w.mu.Unlock()
+		w.unlock()
 		return errStr(err)
 	case "stopctx":
 		ctx, cancel := mkctx()
 		defer cancel()
-		w.mu.Lock()
+		w.lock()
 		in.inStopCall++
-		w.mu.Unlock()
+		w.unlock()
 		err := in.el.StopWithContext(ctx, leader.StopOptions{DeleteKey: it.DeleteKey, WaitForDemote: it.WaitForDemote, Timeout: it.Timeout})
-		w.mu.Lock()
+		w.lock()
 		in.inStopCall--
 		if err == nil {
 			in.stopDone = true
 		}
-		w.mu.Unlock()
+		w.unlock()
 		return errStr(err)
 	case "validate":
 		ctx, cancel := mkctx()
